@@ -1,10 +1,11 @@
 /-
 Line-protocol front end for the bzip2 specification and stage models
-(kinds `bz`, `rle1e`, `rle1d`, `mtfe`, `mtfd`, `bwtd`, `bwte`, `bzcrc`).
+(kinds `bz`, `bzr`, `rle1e`, `rle1d`, `mtfe`, `mtfd`, `bwtd`, `bwte`, `bzcrc`).
 -/
 import Compress.Util
 import Compress.Bzip2.Spec
 import Compress.Bzip2.Writer
+import Compress.Bzip2.Impl
 import Compress.Drv.Prefix
 
 namespace Compress.Drv
@@ -88,5 +89,33 @@ def handleBzw (kv : List (String × String)) : String :=
     | none => "model-panic"
     | some out => hexOfBytes out
   | _, _ => "bad-line"
+
+end Compress.Drv
+
+namespace Compress.Drv
+open Compress.Util Compress.Bzip2 Compress
+
+def bzrErr : Option Impl.Err → String
+  | none => "nil" | some .eof => "eof" | some .unexpectedEOF => "ueof"
+  | some .corrupted => "corrupt" | some .deprecated => "deprecated"
+
+/-- FNV-1a (64 bit) of a string's UTF-8 bytes. -/
+def fnv64Str (s : String) : UInt64 :=
+  s.toUTF8.foldl (fun h b => (h ^^^ b.toUInt64) * 1099511628211) 14695981039346656037
+
+/-- kind `bzr`: the Go-shaped model of bzip2.Reader driven by a schedule of Read sizes.
+    One record `bytes:InputOffset:OutputOffset` per Read call, then the error that ended the
+    run (`nil` when the schedule ran out first); long transcripts are cut to a prefix, the
+    length and a hash. -/
+def handleBzr (kv : List (String × String)) : String :=
+  match bytesOfHex (lookupD kv "in" "-") with
+  | some bs =>
+    let sched := ((splitList (lookupD kv "sched" "4096") ',').filterMap parseNat)
+    let r := Impl.run bs sched
+    let recs := r.reads.map fun x => s!"{outSummary x.out.toArray}:{x.inOff}:{x.outOff}"
+    let body := "|".intercalate recs
+    let body := if body.length ≤ 3000 then body else s!"{(body.take 200).toString}..{body.length}..{(fnv64Str body).toNat}"
+    s!"{body};{bzrErr r.err};{r.reads.length}"
+  | none => "bad-line"
 
 end Compress.Drv
